@@ -101,10 +101,15 @@ def gen_case(rnd, tier, index):
                 inputs.append(o)
             outputs.append(o)
             kinds.append('output-as-input')
-    if rnd.random() < 0.06:
+    unrelated = None
+    if rnd.random() < 0.12:
         others = [a for a in dag.constants() if a not in anc and a not in pinned and a not in inputs]
+        lonely = [a for a in others if not dag.deps.get(a)]
+        if lonely and rnd.random() < 0.7:
+            others = lonely     # in the model (read before) but nothing depends on it: ValueError
         if others:
-            inputs.append(rnd.choice(others))
+            unrelated = rnd.choice(others)
+            inputs.append(unrelated)
             kinds.append('unrelated')
     if not inputs:
         return {'spec': spec, 'cfg': cfg, 'ops': []}
@@ -124,7 +129,17 @@ def gen_case(rnd, tier, index):
             ops.append({'op': 'eval', 'a': rnd.choice(dag.order), 'form': 'cell'})
     for o in outputs:
         ops.append({'op': 'eval', 'a': o, 'form': 'cell', 'pre_trim': True})
-    ops.append({'op': 'trim', 'inputs': list(inputs), 'outputs': list(outputs)})
+    if unrelated:
+        ops.append({'op': 'eval', 'a': unrelated, 'form': 'cell', 'pre_trim': True})
+    first_inputs = list(inputs)
+    if unrelated and rnd.random() < 0.5:
+        first_inputs = [unrelated]      # the caller first names a wrong cell only
+    ops.append({'op': 'trim', 'inputs': first_inputs, 'outputs': list(outputs)})
+    if 'unrelated' in kinds:
+        # should the call fail with its documented ValueError: the caller corrects the inputs
+        # and trims the same compiler again
+        ops.append({'op': 'trim', 'inputs': list(inputs[:-1]), 'outputs': list(outputs),
+                    'retry': True})
     restarts = 0
     for _ in range(rnd.choice((3, 6, 10, 16))):
         roll = rnd.random()
@@ -207,6 +222,9 @@ def legalise(case):
         k = op['op']
         if k == 'trim':
             if seen_trim:
+                if op.get('retry') and len(inputs) > 1:
+                    ops.append({'op': 'trim', 'inputs': list(inputs[:-1]),
+                                'outputs': list(outputs), 'retry': True})
                 continue
             seen_trim = True
             # outputs must have been evaluated once before
@@ -214,7 +232,9 @@ def legalise(case):
             for o in outputs:
                 if o not in have:
                     ops.append({'op': 'eval', 'a': o, 'form': 'cell', 'pre_trim': True})
-            ops.append({'op': 'trim', 'inputs': list(inputs), 'outputs': list(outputs)})
+            own = [a for a in op.get('inputs', []) if a in inputs]
+            ops.append({'op': 'trim', 'inputs': own if own and len(own) < len(inputs) else list(inputs),
+                        'outputs': list(outputs)})
             trimmed = True
             continue
         if not trimmed:
@@ -392,6 +412,10 @@ def run_case(case):
                 if expected.get(i, ('ok',))[0] == 'err':
                     pos['stopped'] = True
                     continue
+                if op.get('retry'):
+                    if pos['trimmed']:
+                        continue          # the first call worked
+                    count('probe:trim-again-after-a-failed-trim')
                 for kind in cfg.get('kinds', []):
                     count('probe:trim-with-input-kind-' + kind)
                 out = driver.step(op)
@@ -400,11 +424,19 @@ def run_case(case):
                 if 'exc' in out:
                     if out['exc'] == 'ValueError' and allowed_valueerror:
                         count('probe:documented-ValueError-input-without-dependants')
-                        pos['stopped'] = True
+                        nxt = ops[pos['i']] if pos['i'] < len(ops) else None
+                        if not (nxt and nxt['op'] == 'trim' and nxt.get('retry')):
+                            pos['stopped'] = True
                     else:
                         violate('exception', i, op, 'trim_graph works' + (
                             ' (ValueError permitted)' if allowed_valueerror else ''), out,
                             exc=out['exc'])
+                elif set(op['inputs']) != set(inputs) and not op.get('retry'):
+                    # the call with the wrong cell only went through (a cell that is not in
+                    # the model is just a warning): the model is now trimmed for other inputs
+                    # than the history assumes - nothing more to compare
+                    count('probe:trim-with-wrong-input-did-not-fail')
+                    pos['stopped'] = True
                 else:
                     pos['trimmed'] = True
                     # every address the outputs can reach is still in the model
